@@ -27,10 +27,12 @@ PROPS = {
                       "scheduler (no enabled task / horizon), data races by the Go race detector on the same tapes. Evidence, not proof: interleavings "
                       "are sampled at hook granularity.",
         "level_note": "Trusts the simulator (token scheduler, synctest clock), porcupine, ThreadSanitizer; operations inside a Go builtin or an env critical section are atomic in the simulation.",
-        "rule": "one run = one seeded tape: 1-3 atoms, 2-5 simulated caller threads x 1-6 operations (deref/reset!/swap! with pure, wide, "
-                "builtin, failing, atom-reading, self-reading and other-atom-updating update functions, some wrapped in futures, plus gensym/memoize), "
-                "scheduled by the seeded token scheduler at evaluation steps, lock acquisitions and the swap! read/apply windows. "
-                "non-trivial = at least 2 tasks, more than one token switch and at least one preemption inside a named window or one contended lock; "
+        "rule": "one run = one seeded tape: 1-3 atoms holding lists of unique tokens, 2-5 simulated caller threads x 1-6 operations from 21 kinds (deref in both forms, reset!, "
+                "swap! with pure, wide, builtin, extra-argument (1 and 3 extra arguments), always-failing, late-failing, value-dependent failing (bounded), type-error, atom-reading, "
+                "self-reading and other-atom-updating/resetting update functions, swap! inside let, some wrapped in futures, plus gensym and memoize), every atom access - also the ones "
+                "nested inside update functions - recorded as an operation. Scheduling: seeded quantum walk, PCT (depth 1-3) or starvation, at evaluation steps, statement-level yields "
+                "inserted into lib/concurrent/concurrent.go, lock acquisitions (with RWMutex writer preference emulated) and the swap! read/apply/retry windows. "
+                "non-trivial = at least 2 tasks, more than one token switch and at least one preemption inside a named or auto-inserted window; "
                 "distinct = distinct hash of the sequence of (task, hook point) pairs at which the token changed hands",
         "assumptions": COMMON_ASSUMPTIONS + ["an update function that updates the very atom being swapped is excluded (as in the property)"],
         "must_hit": ["preempt:atom.swap.read", "preempt:atom.swap.applied", "point:atom.swap.retry", "porcupine_ok"],
@@ -46,9 +48,11 @@ PROPS = {
                       "calls with and without deadlines on the fake clock; the recorded history is checked against obligations phrased over observable events "
                       "and event stamps only, data races by the Go race detector on the same tapes.",
         "level_note": "Trusts the simulator, the synctest clock and ThreadSanitizer; 'completed' is defined from observable events only (body thread ended, an outcome-returning deref or a true future-done? returned earlier).",
-        "rule": "one run = one seeded tape: a creator thread defines 1-2 futures (body: value, throw, failing builtin, context-aware gate, context-ignoring gate, "
-                "sleep, busy loop, deref of the other future), 1-4 caller threads x 1-5 operations (deref with/without deadline, future-done?, future-cancelled?, "
-                "future-cancel, naps), a gatekeeper opening gates at scheduler-chosen instants, optionally a deadline on the creator's context. "
+        "rule": "one run = one seeded tape: a creator thread defines 1-2 futures (body: value, nil, false, collection, throw, failing builtin, context-aware gate, context-ignoring gate, "
+                "gate then throw, sleep, busy loop, future-call of a fn, nested future, deref of the other future; in a third of the two-future runs the second future is started by the first "
+                "one's body and outlives it), 1-4 caller threads x 1-5 operations (deref with/without deadline, future-done?, future-cancelled?, future-cancel, naps), a gatekeeper opening "
+                "gates at scheduler-chosen instants, optionally a deadline on the creator's context; step cost 0, 1us or 50us. Oracles: obligations O1-O6 over the history, a deref's wake-up "
+                "instant against its deadline, and the whole status history against a sequential specification with porcupine. "
                 "non-trivial = at least 3 tasks, more than two token switches and at least one preemption inside a future.* window or one wake-up from a real blocking deref/sleep; "
                 "distinct = distinct hash of the sequence of (task, hook point) pairs at which the token changed hands",
         "assumptions": COMMON_ASSUMPTIONS + ["a second future-cancel on an already cancelled future may return either value (the statement does not say)",
@@ -66,10 +70,12 @@ PROPS = {
                       "prepared fresh environment (refinement), probes check that no local name is visible at top level, readers check all-or-nothing monotone visibility "
                       "of a redefined global, and the Go race detector runs on the same tapes for the no-data-race clause.",
         "level_note": "Trusts the simulator and ThreadSanitizer; the solo run is the reference (it is the same interpreter); env critical sections are atomic in the simulation, their absence is a matter for the race oracle.",
-        "rule": "one run = one seeded tape: 2-5 programs of 2-5 fragments drawn from 33 templates (let, shadowing, tail/non-tail recursion under thread-specific global names, "
-                "closures over local atoms, own and library macros, memoize, try/catch, defs, derivation from shared vector/map/list/closure/macro, map/apply/reduce, futures, gensym), "
+        "rule": "one run = one seeded tape: 2-5 programs of 2-5 fragments drawn from 49 templates (let, shadowing, tail/non-tail recursion under thread-specific global names, "
+                "closures over local atoms, own and library macros, memoize, try/catch, defs, def inside thunks and future bodies, derivation from shared vector/map/list/closure/macro, "
+                "map/apply/reduce/update-in, futures incl. ones started in a non-final let binding, gensym names used as private globals, a local helper defined after a future was started), "
                 "same local names in every thread with thread-specific values; optional writer redefining g through 2-6 distinct structured values with 1-2 readers; optional prober "
-                "reading local names at top level. non-trivial = at least 2 tasks and at least 4 token switches; distinct = distinct hash of the (task, hook point) switch sequence",
+                "reading local and temporary names at top level. Statement-level yields in lib/concurrent/concurrent.go and env/env.go. "
+                "non-trivial = at least 2 tasks and at least 4 token switches; distinct = distinct hash of the (task, hook point) switch sequence",
         "assumptions": COMMON_ASSUMPTIONS + ["generated programs never evaluate non-constant map literals (Go map iteration order)"],
         "must_hit": ["preempt:step", "point:spawn", "wake:future.deref.val"],
         "race": True, "race_share": 0.5,
@@ -83,10 +89,12 @@ PROPS = {
                       "sequential (empty schedule space: the honest scope note of DESIGN.md §5.5 applies), half run 2-4 simulated caller threads that extend the same parents under "
                       "a seeded schedule, with the Go race detector on the same tapes.",
         "level_note": "Trusts the simulator, the canonical printer and ThreadSanitizer. No model of what an operation should return is used (that is C13).",
-        "rule": "one run = one seeded tape: 8 seed values (reader-built vector and quoted list, conj/range results with spare capacity, nested map, set, vec of a quoted list) and "
-                "3-40 operations from 35 kinds (conj, concat, cons, assoc, dissoc, subvec, rest, vec, seq, take/drop families, merge, rename-keys, with-meta, assoc-in, update, update-in, "
-                "apply, map, quasiquote splices, closures, macros), parents chosen with a bias to re-extend the previous parent. non-trivial = some parent extended at least twice; "
-                "distinct = distinct (operation sequence, interleaving) hash",
+        "rule": "one run = one seeded tape: 15 seed values (reader-built vector and quoted list, conj/range results with spare capacity, nested maps and vectors, sets, vec of a quoted list, "
+                "empty vector and list, drained vectors that keep capacity) and 3-40 operations from 54 kinds (conj, concat incl. empty leading arguments, cons, assoc, dissoc incl. several keys "
+                "with absent ones, subvec, rest, vec, seq, take/drop families, merge, rename-keys, with-meta, assoc-in/update/update-in through maps, vectors and mixed nesting, apply, map, "
+                "quasiquote splices, closures, macros, catch/let variables named like pool values, variadic callbacks that retain their rest list inside map/apply/reduce), parents chosen with a bias "
+                "to re-extend the previous parent. Oracles: snapshot of every value re-read after every operation; prefix stability of snapshots taken inside callbacks; race detector. "
+                "non-trivial = some parent extended at least twice; distinct = distinct (operation sequence, interleaving) hash",
         "assumptions": COMMON_ASSUMPTIONS + ["registration-time mutation of _PACKAGES_ by call.Call is outside the statement (not a builtin, special form, macro expansion or splice)"],
         "must_hit": ["form:threads=1", "form:threads=2", "snapshot_comparisons", "retained_value_comparisons"],
         "race": True, "race_share": 0.35,
@@ -101,9 +109,10 @@ PROPS = {
                       "context or before entry. Invariant: at most B = 200 + 20*(AST nodes) evaluation steps of the calling thread and (B+10) step costs of simulated time after "
                       "the context ended; try-free programs return a timeout error; a timeout inside a try body under a deadline is caught and the handler runs once.",
         "level_note": "Trusts the simulator and the synctest clock. Builtins see small data only. A future body that keeps running after EVAL returned is reported as a probe, not judged.",
-        "rule": "one run = one seeded tape: a program drawn from the grammar (11 endless leaves: tail / non-tail / macro recursion, cond, and/or, ->, sleeping loop, long sleep, swap! loop, apply, "
-                "deref of a body ignoring cancellation; wrapped in map/reduce/swap!/update callbacks, future deref, do/let/if, try/catch/finally nests to depth 4 whose handlers and finally "
-                "bodies loop, sleep, return, rethrow), a step cost of 1us..1ms with optional jitter, and a cancellation (kind x instant, log-uniform up to ~32k steps). "
+        "rule": "one run = one seeded tape: a program drawn from the grammar (18 endless leaves: tail / non-tail / macro recursion, cond, and/or, ->, loops whose iterations mention only symbols "
+                "and constants, sleeping loop, long sleep, swap! loop, apply, deref of a body ignoring cancellation, deref of a pending future shared with a body started by an earlier evaluation "
+                "under an unrelated context; wrapped in map/reduce/swap!/update callbacks, eval, future deref, do/let/if, try/catch/finally nests to depth 4 whose handlers and finally bodies loop, "
+                "sleep, return, rethrow; plus handler and finally probes), a step cost of 1us..1ms with optional jitter, and a cancellation (kind x instant, log-uniform up to ~32k steps). "
                 "non-trivial = the context ended while the program was running; distinct = distinct (program text, cancellation kind, instant, interleaving) hash",
         "assumptions": COMMON_ASSUMPTIONS + ["the word 'timeout' in the error message identifies a timeout error"],
         "must_hit": ["fault:deadline", "fault:cancel-at-step", "fault:parent-cancel-at-step", "fault:ended-at-entry", "fault:deadline-parent", "wake:sleep.ctx", "wake:future.deref.ctx", "handler_probe_ok", "shape:try", "shape:macro", "shape:tail-noargs", "shape:deref-shared-pending", "shape:eval", "finally_probe_ok"],
@@ -118,10 +127,12 @@ PROPS = {
                       "multi-fault plans; the interpreter's result, thrown object (lisp values structurally, Go errors via errors.Is) and ordered trace are compared with a "
                       "small reference interpreter of exactly the semantics in the statement. Programs are sampled (seeded), plans per program are exhaustive.",
         "level_note": "Trusts the reference model (about 80 lines) and the canonical printer. Faults inside finally bodies are not generated (the statement does not say what they do). Single-threaded: no race binary.",
-        "rule": "one run = one seeded try-nest program (depth <= 5, up to ~60 nodes: probe!/probe-raw! sites, trace! effects, throws of 18 kinds of values including code-looking lists and "
-                "symbols, calls through 1-3 function levels, apply, user and library macros, let shadowing the catch symbol, reads of the catch symbol in handlers, finally bodies and after the form) "
-                "executed under the fault-free plan, EVERY single-fault plan and 2 (thorough: 12) drawn multi-fault plans. evaluations counts runs (programs); plans_executed counts executions. "
-                "non-trivial = the program has at least one probe site and a fault actually fired; distinct = distinct program text",
+        "rule": "one run = one seeded try-nest program (depth <= 5, up to ~60 nodes: probe!/probe-raw! sites, macro-expansion-time probes and throws, trace! effects incl. the value the catch "
+                "symbol resolves to in handlers, finally bodies and after the form, throws of 18 kinds of values including code-looking lists and symbols, body-less try forms, calls through 1-3 "
+                "function levels, apply, user and library macros, let shadowing the catch symbol) executed under the fault-free plan, EVERY single-fault plan (site x {error, %w-wrapped error, "
+                "panic with an error - for raw builtins where an enclosing try body recovers it -, panic with a non-error value, lisp value thrown from Go, budget timeout: the probe waits on the "
+                "fake clock until the context it was handed ends}) and 2 (thorough: 12) drawn multi-fault plans, each under a one-hour simulated deadline. evaluations counts runs (programs); "
+                "plans_executed counts executions. non-trivial = the program has at least one probe site and a fault actually fired; distinct = distinct program text",
         "assumptions": COMMON_ASSUMPTIONS[:1] + ["a raw types.Func that panics is outside the statement (no recovery promised)", "a panic with a non-error value inside a lib/call builtin is treated as a throw of that value"],
         "must_hit": ["fault:err", "fault:err-wrapped", "fault:panic-err", "fault:panic-val", "fault:throw-val", "plans_with_fault"],
         "race": False,
@@ -135,8 +146,11 @@ PROPS = {
                       "same program run without a stepper in an identically prepared environment; every (form, scope) handed to the callback is compared with the evaluation step "
                       "that follows. Now and then all command sequences up to length 4 (thorough: 5) are enumerated for the program at hand.",
         "level_note": "Trusts the stepper-less run as reference (same interpreter). No scheduler and no clock are involved: the simulated party is the debugger. Single-threaded: no race binary.",
-        "rule": "one run = one seeded program (try-nest with 0-1 injected builtin failure, or 1-3 of 23 templates) x one seeded command tape of up to 120 commands with a drawn bias and tail command; "
-                "about one run in twelve additionally enumerates every command sequence of length <= 4. evaluations counts runs; stepper_runs counts executions with a stepper. "
+        "rule": "one run = one seeded program (try-nest with 0-1 injected builtin failure, or 1-3 of 43 templates incl. error-inspecting handlers, uncaught errors, map/vector literals with one "
+                "effect, forms longer than ten items) x one seeded command tape of up to 120 commands with a drawn bias and tail command, x one run under the debugger package's own engine in "
+                "its headless run-and-trace mode, followed by a stepper-less re-run of the same source; about one run in twelve additionally enumerates every command sequence of length <= 4 "
+                "(thorough: 5). Compared: result, error text with position, trace, and every (form, scope) handed to the callback with the evaluation step that follows. "
+                "evaluations counts runs; stepper_runs counts executions with a scripted stepper. "
                 "non-trivial = the callback was consulted and at least one command was drawn; distinct = distinct (program, fault plan, command tape) hash",
         "assumptions": COMMON_ASSUMPTIONS[:1] + ["ANSWER:/ERROR: lines printed by the evaluator on 'next' are debugger output, not program effects (stdout is redirected)", "programs terminate within the host stack (recursion depth <= 50)"],
         "must_hit": ["fault:stepper-next", "fault:stepper-in", "fault:stepper-out", "exhaustive_prefix_enumerations", "shipped_debugger_runs"],
